@@ -104,9 +104,14 @@ Proof.
     destruct (conv_value strtod_o (o_kind o) sv) as [xv|].
     + destruct R as (Rn & RV & RS & RR). destruct res as [idx|]; [|congruence].
       assert (OV4 : cb_valid (o_cbs o4) = None) by (rewrite (shape_cbs _ _ RS); exact OV).
-      rewrite (run_validcb_none _ _ OV4).
-      exists (S f3'), w4, (put_opt c3 r o4), o4, L3, ts3, (st_state (st_num p (S (s_num p))) 0). spl; auto; try lia.
+      rewrite (run_validcb_none _ _ OV4). fold (cmt p o4).
+      destruct (cmt_props p o4) as (CS & CV & CR).
+      rewrite put_put.
+      exists (S f3'), w4, (put_opt c3 r (cmt p o4)), (cmt p o4), L3, ts3,
+             (st_state (st_num (st_comment p None) (S (s_num (st_comment p None)))) 0). spl; auto; try lia.
       * apply ceq_put, C3.
+      * congruence.
+      * rewrite CV. exact RV.
       * eapply get_put; exact Hg3.
       * unfold pz; cbn; auto.
     + rewrite R. do 2 eexists. split; [reflexivity|]. eapply wst_oof, WK, W3.
